@@ -31,8 +31,8 @@ CHECK_DEADLOCK FALSE
 def run(ctx):
     import vlib
     rnd = random.Random(ctx.seed)
-    ndet, nany = (300, 300) if ctx.thorough else (20, 20)
-    nfp = 300 if ctx.thorough else 25
+    ndet, nany = (200, 200) if ctx.thorough else (20, 20)
+    nfp = 200 if ctx.thorough else 25
     dk = [[rnd.randrange(1 << 20) for _ in range(5)] for _ in range(ndet)]
     ak = [[rnd.randrange(1 << 20) for _ in range(5)] for _ in range(nany)]
     fk = [[rnd.randrange(1 << 20) for _ in range(4)] for _ in range(nfp)]
